@@ -16,6 +16,7 @@ type HeartbeatManager struct {
 	heartBeatNum   uint64 // see https://github.com/golang/go/issues/11891
 	stopHeartbeatC chan struct{}
 	stopMux        sync.Mutex
+	startStopMux   sync.Mutex
 
 	heartBeatTimeout *model.DurationType
 
@@ -88,12 +89,19 @@ func (c *HeartbeatManager) StartHeartbeat() error {
 		return err
 	}
 
+	// starting and stopping may be invoked concurrently
+	c.startStopMux.Lock()
+	defer c.startStopMux.Unlock()
+
 	// stop an already running heartbeat
-	c.StopHeartbeat()
+	c.stopHeartbeat()
 
-	c.stopHeartbeatC = make(chan struct{})
+	stopC := make(chan struct{})
+	c.stopMux.Lock()
+	c.stopHeartbeatC = stopC
+	c.stopMux.Unlock()
 
-	go c.updateHeartbeatData(c.stopHeartbeatC, timeout)
+	go c.updateHeartbeatData(stopC, timeout)
 
 	return nil
 }
@@ -101,6 +109,14 @@ func (c *HeartbeatManager) StartHeartbeat() error {
 // Stop updating heartbeat data
 // Note: No active subscribers will get any further notifications!
 func (c *HeartbeatManager) StopHeartbeat() {
+	c.startStopMux.Lock()
+	defer c.startStopMux.Unlock()
+
+	c.stopHeartbeat()
+}
+
+// needs to be invoked with startStopMux being locked
+func (c *HeartbeatManager) stopHeartbeat() {
 	if c.IsHeartbeatRunning() {
 		close(c.stopHeartbeatC)
 	}
